@@ -34,6 +34,7 @@ type verifClient struct {
 	tokenType         AccessTokenType
 	skew, idLifetime  time.Duration
 	userinfoAssertion bool
+	idScopeDrop       string // scope the client's ID-token scope restriction removes ("" = identity)
 	keyID             string // kid of the key registered for private_key_jwt
 	keyPub            any
 	keyPriv           any
@@ -54,7 +55,18 @@ func (c *verifClient) IsScopeAllowed(scope string) bool    { return false }
 func (c *verifClient) IDTokenUserinfoClaimsAssertion() bool { return c.userinfoAssertion }
 func (c *verifClient) ClockSkew() time.Duration            { return c.skew }
 func (c *verifClient) RestrictAdditionalIdTokenScopes() func(scopes []string) []string {
-	return func(scopes []string) []string { return scopes }
+	return func(scopes []string) []string {
+		if c.idScopeDrop == "" {
+			return scopes
+		}
+		out := make([]string, 0, len(scopes))
+		for _, s := range scopes {
+			if s != c.idScopeDrop {
+				out = append(out, s)
+			}
+		}
+		return out
+	}
 }
 func (c *verifClient) RestrictAdditionalAccessTokenScopes() func(scopes []string) []string {
 	return func(scopes []string) []string { return scopes }
@@ -219,6 +231,7 @@ type verifStorage struct {
 	signPriv  any
 	signPub   any
 	signKeyID string
+	rotating  bool // the published key set also carries the previous key (same family, other kid)
 
 	keyServed []string // client ids for which GetKeyByIDAndClientID handed out a key in this request
 	ccOK      []string // client ids for which ClientCredentials said yes in this request
@@ -401,7 +414,12 @@ func (s *verifStorage) KeySet(ctx context.Context) ([]Key, error) {
 	if err := s.fault("KeySet"); err != nil {
 		return nil, err
 	}
-	return []Key{&verifPubKey{alg: jose.SignatureAlgorithm(s.signAlg), key: s.signPub, id: s.signKeyID}}, nil
+	keys := []Key{&verifPubKey{alg: jose.SignatureAlgorithm(s.signAlg), key: s.signPub, id: s.signKeyID}}
+	if s.rotating {
+		_, prev := nd.KeyPair("op-key-0", s.signAlg)
+		keys = append(keys, &verifPubKey{alg: jose.SignatureAlgorithm(s.signAlg), key: prev, id: "op-key-0"})
+	}
+	return keys, nil
 }
 func (s *verifStorage) GetClientByClientID(ctx context.Context, id string) (Client, error) {
 	if err := s.fault("GetClientByClientID"); err != nil {
